@@ -188,7 +188,7 @@ def replay(params, model, wd):
         fp = "?"
         keys = [F.refkey(*F.expected(paths[i], tags, *nums[i])[:3], i) for i in range(n)]
         for a in range(n - 1):
-            if keys[idxs[a]] > keys[idxs[a + 1]] and not (keys[idxs[a]][0] == 1 and keys[idxs[a + 1]][0] == 1):
+            if keys[idxs[a]] >= keys[idxs[a + 1]] and not (keys[idxs[a]][0] == 1 and keys[idxs[a + 1]][0] == 1):
                 fp = F.fingerprint_order(paths, tags, nums, idxs[a], idxs[a + 1])
                 break
         return {"reproduced": True, "key": "C08:order:" + fp, "what": v, "level": "cli",
